@@ -193,7 +193,7 @@ pub fn corpus(rg: &mut Rg, per_class: usize) -> Vec<EnumSpec> {
     specs
 }
 
-fn module_plain(e: &EnumSpec, cfg: Config, nested: bool) -> ModuleSrc {
+fn module_plain(e: &EnumSpec, cfg: Config, form: usize) -> ModuleSrc {
     let mut src = Src::default();
     src.push(&format!("pub mod m_{} {{", e.name.to_lowercase()));
     if cfg == Config::Shadowed {
@@ -209,16 +209,23 @@ fn module_plain(e: &EnumSpec, cfg: Config, nested: bool) -> ModuleSrc {
             g.retain(|a| !matches!(a, EAttr::Crate(_)));
         }
         e2.groups.retain(|g| !g.is_empty());
-        // three spellings of the configured path; for the absolute one a local decoy of the same name
-        // sits in scope, so dropping the leading `::` resolves to the wrong item
-        let path = match (nested, e.hash64() % 3 == 0) {
-            (true, _) => "crate::reexp::inner",
-            (false, true) => {
+        // four spellings of the configured path, in rotation: a module-local alias (a single identifier that
+        // names a local item, unique per module, so neither an added leading `::` nor a path remembered
+        // from another enum resolves), a nested re-export, an absolute path next to a same-named local
+        // decoy (a dropped leading `::` resolves to the decoy), and the plain extern-crate name
+        let alias = format!("local_strum_{}", e.name.to_lowercase());
+        let path: &str = match form % 4 {
+            0 => {
+                src.push(&format!("use strum_x as {};", alias));
+                &alias
+            }
+            1 => "crate::reexp::inner",
+            2 => {
                 src.push("mod strum_x {}");
                 prefix = "::strum_x::";
                 "::strum_x"
             }
-            (false, false) => "strum_x",
+            _ => "strum_x",
         };
         e2.groups.push(vec![EAttr::Crate(path.into())]);
         if let Some(o) = e2.disc_opts.as_mut() {
@@ -278,7 +285,7 @@ pub fn run(env: &Env, tier: &str, seed: u64, out: &mut Outcome) {
             let specs = specs.clone();
             let envc = Env { verif: env.verif.clone(), repo: env.repo.clone() };
             handles.push(std::thread::spawn(move || {
-                let items: Vec<Item> = specs.iter().enumerate().map(|(i, s)| Item { spec: s.clone(), module: module_plain(s, cfgk, i % 2 == 1) }).collect();
+                let items: Vec<Item> = specs.iter().enumerate().map(|(i, s)| Item { spec: s.clone(), module: module_plain(s, cfgk, i) }).collect();
                 let mut cfg = CrateCfg::new(&envc, "C19", cfgk.tag());
                 cfg.id = format!("c19{}", &cfgk.tag()[..1].to_lowercase());
                 cfg.lib_only = true;
@@ -364,7 +371,7 @@ pub fn run(env: &Env, tier: &str, seed: u64, out: &mut Outcome) {
         }
         if round == 0 {
             for s in specs.iter().step_by(specs.len() / 4 + 1).take(4) {
-                out.agg.samples.push(json!({"enum": s.name, "derives": s.derives, "classes": classes(s), "source": module_plain(s, Config::Renamed, true).src.text}));
+                out.agg.samples.push(json!({"enum": s.name, "derives": s.derives, "classes": classes(s), "source": module_plain(s, Config::Renamed, 1).src.text}));
             }
         }
         if out.inconclusive.is_some() || !out.violations.is_empty() {
@@ -384,7 +391,7 @@ pub fn replay(env: &Env, doc: &serde_json::Value) -> (i32, Outcome) {
         "B-renamed-crate" => Config::Renamed,
         _ => Config::Shadowed,
     };
-    for nested in [false, true] {
+    for nested in [0usize, 1, 2, 3] {
         let items = vec![Item { spec: spec.clone(), module: module_plain(&spec, cfgk, nested) }];
         let mut cfg = CrateCfg::new(env, "C19", "single");
         cfg.id = format!("c19{}", &cfgk.tag()[..1].to_lowercase());
